@@ -32,23 +32,45 @@ impl Rng {
     }
 }
 
-fn binding_shader(pairs: &[(u32, u32)], used: bool) -> String {
+/// mode 0: no variable is used; 1: all are used by one compute entry; 2: STAGE-DISJOINT use - even variables only by a vertex
+/// entry, odd ones only by a fragment entry (a repeated slot is then never seen by one stage together);
+/// 3: like 1, and every fifth variable has a type the generator has no binding for (top-level `atomic<u32>`)
+fn binding_shader(pairs: &[(u32, u32)], mode: u8) -> String {
     let mut s = String::new();
     let kinds = ["var<uniform> NAME: vec4<f32>;", "var<storage, read> NAME: array<f32>;", "var NAME: texture_2d<f32>;", "var NAME: sampler;"];
+    let odd = |i: usize| mode == 3 && i % 5 == 4;
     for (i, (g, b)) in pairs.iter().enumerate() {
-        let decl = kinds[i % kinds.len()].replace("NAME", &format!("v{i}"));
+        let decl = if odd(i) { "var<storage, read_write> NAME: atomic<u32>;".to_string() } else { kinds[i % kinds.len()].to_string() }.replace("NAME", &format!("v{i}"));
         let su = |x: u32| if x > i32::MAX as u32 || x % 5 == 4 { format!("{x}u") } else { format!("{x}") };
         s.push_str(&format!("@group({}) @binding({}) {decl}\n", su(*g), su(*b)));
     }
+    let use_of = |i: usize| -> String {
+        if odd(i) {
+            return format!("    let x{i} = atomicLoad(&v{i});\n");
+        }
+        match i % kinds.len() {
+            0 => format!("    let x{i} = v{i}.x;\n"),
+            1 => format!("    let x{i} = v{i}[0];\n"),
+            2 => format!("    let x{i} = textureDimensions(v{i});\n"),
+            _ => format!("    _ = v{i};\n"),
+        }
+    };
+    if mode == 2 {
+        s.push_str("@vertex\nfn vs() -> @builtin(position) vec4<f32> {\n");
+        for i in (0..pairs.len()).filter(|i| i % 2 == 0) {
+            s.push_str(&use_of(i));
+        }
+        s.push_str("    return vec4<f32>(0.0);\n}\n@fragment\nfn fs() -> @location(0) vec4<f32> {\n");
+        for i in (0..pairs.len()).filter(|i| i % 2 == 1) {
+            s.push_str(&use_of(i));
+        }
+        s.push_str("    return vec4<f32>(0.0);\n}\n");
+        return s;
+    }
     s.push_str("@compute @workgroup_size(1)\nfn main() {\n");
-    if used {
-        for (i, _) in pairs.iter().enumerate() {
-            match i % kinds.len() {
-                0 => s.push_str(&format!("    let x{i} = v{i}.x;\n")),
-                1 => s.push_str(&format!("    let x{i} = v{i}[0];\n")),
-                2 => s.push_str(&format!("    let x{i} = textureDimensions(v{i});\n")),
-                _ => s.push_str(&format!("    _ = v{i};\n")),
-            }
+    if mode != 0 {
+        for i in 0..pairs.len() {
+            s.push_str(&use_of(i));
         }
     }
     s.push_str("}\n");
@@ -89,14 +111,17 @@ fn main() {
             let pairs: Vec<(u32, u32)> = (0..ng).flat_map(|g| (0..nb).map(move |b| (g, b))).collect();
             // every sequence (ordered, with repetition) of length 0..=maxlen
             let mut idx: Vec<usize> = vec![];
-            emit("c11:empty", &binding_shader(&[], false));
+            emit("c11:empty", &binding_shader(&[], 0));
             for len in 1..=maxlen {
                 idx.clear();
                 idx.resize(len, 0);
                 loop {
                     let seq: Vec<(u32, u32)> = idx.iter().map(|&i| pairs[i]).collect();
                     let id: Vec<String> = seq.iter().map(|(g, b)| format!("{g}.{b}")).collect();
-                    emit(&format!("c11:{}", id.join("-")), &binding_shader(&seq, false));
+                    emit(&format!("c11:{}", id.join("-")), &binding_shader(&seq, 0));
+                    if len >= 2 && len <= 3 {
+                        emit(&format!("c11:{}:stage-disjoint", id.join("-")), &binding_shader(&seq, 2));
+                    }
                     // odometer
                     let mut k = len;
                     loop {
@@ -135,8 +160,8 @@ fn main() {
                     let b = if r.below(2) == 0 { r.below(4) as u32 } else { extremes[r.below(extremes.len() as u64) as usize] };
                     seq.push((g, b));
                 }
-                let used = r.below(2) == 0;
-                emit(&format!("c11rand:{seed}:{i}"), &binding_shader(&seq, used));
+                let mode = r.below(4) as u8;
+                emit(&format!("c11rand:{seed}:{i}"), &binding_shader(&seq, mode));
             }
         }
         "gen" => {
@@ -182,8 +207,10 @@ fn main() {
                     // usage: 0 = unused, 1 = first entry, 2 = last entry, 3 = all through a helper, 4 = middle via nested helper
                     // (value-returning call in a continuing block), 5 = middle via a call STATEMENT (no result) in a continuing
                     // block, 6 = middle via a call statement in the update clause of a for loop, 7 = call statement inside
-                    // switch / if / nested block of a helper
-                    for usage in 0..8usize {
+                    // switch / if / nested block of a helper, 8 = call statement under `if DEBUG { .. }` with `const DEBUG = false` (the whole
+                    // condition is a module constant), 9 = in the else branch of a constant-true flag, 10 = after the same void helper was
+                    // called twice in the block, 11 = only the ADDRESS of the variable is taken, never dereferenced (`let p = &pc;`)
+                    for usage in 0..12usize {
                         let ty = tys[k % tys.len()];
                         k += 1;
                         let mut s = String::new();
@@ -195,6 +222,10 @@ fn main() {
                             s.push_str("fn midv() { var x = 0.0; loop { if x > 1.0 { break; } continuing { x += 1.0; leafv(); } } }\n");
                             s.push_str("fn midf() { for (var i = 0u; i < 2u; leafv()) { i += 1u; } }\n");
                             s.push_str("fn mids(k: u32) { switch k { case 1u: { if k > 0u { { leafv(); } } } default: { } } }\n");
+                            s.push_str("const DEBUG = false;\nconst ENABLED: bool = true;\n");
+                            s.push_str("fn midc() { if DEBUG { leafv(); } }\n");
+                            s.push_str("fn mide() { if ENABLED { } else { leafv(); } }\n");
+                            s.push_str("fn noop() { }\nfn midr() { noop(); noop(); leafv(); }\n");
                         }
                         for (i, st) in stages.iter().enumerate() {
                             let uses = match usage {
@@ -213,6 +244,10 @@ fn main() {
                                     5 => "midv();",
                                     6 => "midf();",
                                     7 => "mids(1u);",
+                                    8 => "midc();",
+                                    9 => "mide();",
+                                    10 => "midr();",
+                                    11 => "let p = &pc;",
                                     _ => "let q = pc;",
                                 }
                             };
@@ -317,6 +352,116 @@ fn main() {
                 }
             }
         }
+        "names" => {
+            // EXHAUSTIVE over (identifier role x name shape): one tiny shader per pair, every other identifier fixed.
+            // Roles: vertex input struct, its member, host struct member, resource variable, second resource variable (texture),
+            // constant, override with default, override without default (with and without @id), helper function,
+            // vertex / fragment / compute entry point, push-constant variable.
+            // Names: case shapes (camel, Pascal, SCREAMING, snake, digits, leading / trailing underscore, one letter), names the
+            // generated module defines or spells itself (ENTRY_*, SOURCE, VertexEntry, bind_groups, overrides, device, wgpu, Option, ..),
+            // Rust keywords WGSL allows, non-ASCII. Some pairs are not valid WGSL (reserved words): those are parse errors.
+            let names = [
+                "camelCase", "PascalCase", "SCREAMING_CASE", "snake_case", "with2Digits9", "_lead", "trail_", "q", "Q", "aB", "Ab",
+                "ENTRY_X", "ENTRY_VS0", "ENTRY_", "SOURCE", "PUSH_CONSTANT_STAGES", "VertexEntry", "FragmentEntry", "OverrideConstants",
+                "bind_groups", "compute", "overrides", "targets", "device", "bindings", "entries", "source", "pass", "vs0_entry",
+                "fs0_entry", "vertex_state", "fragment_state", "create_shader_module", "create_pipeline_layout", "set_bind_groups",
+                "BindGroup0", "BindGroupLayout0", "BindGroups", "wgpu", "glam", "std", "core", "bytemuck", "encase", "serde", "Option",
+                "Vec", "String", "Default", "None", "Some", "Self_", "offset", "size", "value", "buffer", "fmt", "other", "in", "dyn",
+                "box", "gen", "\u{394}t", "\u{65e5}\u{672c}", "VS0", "Vs0", "CS0_WORKGROUP_SIZE", "create_cs0_pipeline", "s0", "S0_", "x__y",
+                "HTTPServer", "a1B2", "Z_", "ScaleX_naga_oil_mod_XMFRGGX", "Vertex_Input", "vertex__input", "Host2",
+            ];
+            let roles = ["struct", "member", "hostmember", "hoststruct", "nestedstruct", "global", "texture", "const", "override", "override_req",
+                         "override_id", "function", "vertex", "fragment", "compute", "pushconst"];
+            let stride: usize = args.get(2).and_then(|x| x.parse().ok()).unwrap_or(1).max(1);
+            let offset: usize = args.get(3).and_then(|x| x.parse().ok()).unwrap_or(0) % stride;
+            let mut k = 0usize;
+            for role in roles {
+                for name in names {
+                    k += 1;
+                    if (k - 1) % stride != offset {
+                        continue;
+                    }
+                    let pick = |r: &str, dflt: &str| if r == role { name.to_string() } else { dflt.to_string() };
+                    let s = pick("struct", "S0");
+                    let m = pick("member", "m0");
+                    let hm = pick("hostmember", "hm0");
+                    let hs = pick("hoststruct", "Host");
+                    let ns = pick("nestedstruct", "Nested0");
+                    let g = pick("global", "g0");
+                    let t = pick("texture", "t0");
+                    let c = pick("const", "C0");
+                    let o = pick("override", "o0");
+                    let oreq = pick("override_req", "o1");
+                    let oid = pick("override_id", "o2");
+                    let f = pick("function", "f0");
+                    let ve = pick("vertex", "vs0");
+                    let fe = pick("fragment", "fs0");
+                    let ce = pick("compute", "cs0");
+                    let pc = pick("pushconst", "pc0");
+                    let src = format!(
+                        "struct {s} {{ @location(0) {m}: vec4<f32>, @location(1) other_m: vec2<f32> }}\n\
+                         struct {ns} {{ w: vec4<f32> }}\n\
+                         struct {hs} {{ {hm}: vec4<f32>, inner: f32, nested: {ns}, arr: array<{ns}, 2> }}\n\
+                         struct Pc {{ k: vec4<f32> }}\n\
+                         @group(0) @binding(0) var<uniform> {g}: {hs};\n\
+                         @group(0) @binding(1) var {t}: texture_2d<f32>;\n\
+                         var<push_constant> {pc}: Pc;\n\
+                         const {c}: f32 = 1.5;\n\
+                         override {o}: f32 = 2.0;\n\
+                         override {oreq}: u32;\n\
+                         @id(7) override {oid}: bool = true;\n\
+                         alias Flag = bool;\n\
+                         override o3: Flag;\n\
+                         override o4: Flag = false;\n\
+                         fn {f}(x: f32) -> f32 {{ return x * {c}; }}\n\
+                         @vertex fn {ve}(v: {s}) -> @builtin(position) vec4<f32> {{ return v.{m} * {f}({g}.{hm}.x) * {o} * f32({oreq}) + {pc}.k; }}\n\
+                         @fragment fn {fe}() -> @location(0) vec4<f32> {{ return select(vec4<f32>({c}), textureLoad({t}, vec2<i32>(0, 0), 0), {oid} || o3 || o4); }}\n\
+                         @compute @workgroup_size(1) fn {ce}() {{ }}\n"
+                    );
+                    emit(&format!("names:{role}:{}", name.escape_unicode().to_string().replace("\\u", "u")), &src);
+                }
+            }
+        }
+        "variants" => {
+            // consecutive shaders that are IDENTICAL EXCEPT FOR ONE ATTRIBUTE (an `@id`, a default, a member type, an `@size`, a stage ..):
+            // `dump` runs its cases one after the other on one thread, so a cache inside the generator that is keyed by too little
+            // (names without ids, Rust text without WGSL layout, entry name without module) serves the previous shader's answer
+            let ov = |a: &str, b: &str, c: &str| format!(
+                "{a}override scale: f32 = 1.0;\n{b}override invert: bool;\n{c}override count: u32 = 3u;\n\
+                 @fragment fn fs_main() -> @location(0) vec4<f32> {{ return vec4<f32>(select(scale, -scale, invert) * f32(count)); }}\n");
+            let st = |m0: &str, m1: &str, extra: &str| format!(
+                "struct Light {{ {m0}, {m1} }}\n{extra}@group(0) @binding(0) var<storage, read> light: Light;\n\
+                 @compute @workgroup_size(1) fn main() {{ _ = light.position; }}\n");
+            let vx = |a: &str, b: &str, stage: &str| format!(
+                "struct VertexInput {{ @location(0) position: {a}, @location(1) extra: {b} }}\n\
+                 {stage} fn vs_main(v: VertexInput) -> @builtin(position) vec4<f32> {{ return vec4<f32>(0.0); }}\n");
+            let list: Vec<(&str, String)> = vec![
+                ("ov:plain", ov("", "", "")),
+                ("ov:id-first", ov("@id(7) ", "", "")),
+                ("ov:id-second", ov("", "@id(300) ", "")),
+                ("ov:id-both", ov("@id(7) ", "@id(300) ", "")),
+                ("ov:id-swapped", ov("@id(300) ", "@id(7) ", "")),
+                ("ov:plain-again", ov("", "", "")),
+                ("ov:id-third", ov("", "", "@id(0) ")),
+                ("st:plain", st("position: vec3<f32>", "radius: f32", "")),
+                ("st:size", st("@size(16) position: vec3<f32>", "radius: f32", "")),
+                ("st:align", st("position: vec3<f32>", "@align(16) radius: f32", "")),
+                ("st:plain-again", st("position: vec3<f32>", "radius: f32", "")),
+                ("st:u32", st("position: vec3<u32>", "radius: f32", "")),
+                ("st:array-f32", st("position: array<vec4<f32>, 4>", "radius: f32", "")),
+                ("st:array-u32", st("position: array<vec4<u32>, 4>", "radius: f32", "")),
+                ("st:array-len", st("position: array<vec4<u32>, 5>", "radius: f32", "")),
+                ("st:with-earlier-type", st("position: vec3<f32>", "radius: f32", "struct Earlier { a: mat4x4<f32> }\n@group(0) @binding(1) var<uniform> e: Earlier;\n")),
+                ("vx:f32", vx("vec3<f32>", "vec2<f32>", "@vertex")),
+                ("vx:u32", vx("vec3<u32>", "vec2<f32>", "@vertex")),
+                ("vx:swapped", vx("vec2<f32>", "vec3<f32>", "@vertex")),
+                ("vx:f32-again", vx("vec3<f32>", "vec2<f32>", "@vertex")),
+                ("vx:vec4", vx("vec4<f32>", "vec4<i32>", "@vertex")),
+            ];
+            for (id, src) in list {
+                emit(&format!("variants:{id}"), &src);
+            }
+        }
         "big" => {
             // shaders whose generated module exceeds the 64 KiB pipe buffer: `count` shaders with n, n+7, .. bindings
             let n: usize = args[2].parse().unwrap();
@@ -343,6 +488,10 @@ fn main() {
                 "diamond" => verif_harness::wgslgen::diamond(n),
                 "fanout" => verif_harness::wgslgen::fanout(n),
                 "nested" => verif_harness::wgslgen::nested_structs(n),
+                "diamondpure" => verif_harness::wgslgen::diamond_pure(n, false),
+                "diamondvoid" => verif_harness::wgslgen::diamond_pure(n, true),
+                "nestedarr" => verif_harness::wgslgen::nested_struct_arrays(n),
+                "nesteddeep" => verif_harness::wgslgen::nested_deep(n),
                 other => panic!("unknown family {other}"),
             };
             emit(&format!("family:{}:{n}", args[2]), &src);
